@@ -8,7 +8,10 @@ OUT = os.environ.get("MUT_OUT", "/tmp/mut2/out")
 d = "%s/%s/%s" % (OUT, prop, m)
 env = dict(os.environ, GOFLAGS="-mod=mod", GOPROXY="off", GOSUMDB="off", GOTOOLCHAIN="local")
 def sh(cmd, timeout=2400):
-    r = subprocess.run(cmd, shell=True, cwd=wt, env=env, capture_output=True, text=True, timeout=timeout)
+    try:
+        r = subprocess.run(cmd, shell=True, cwd=wt, env=env, capture_output=True, text=True, timeout=timeout)
+    except subprocess.TimeoutExpired as e:
+        return 124, "FAIL: timed out after %d s (the test hangs)" % timeout
     return r.returncode, (r.stdout + r.stderr)[-1500:]
 def clean():
     sh("git checkout -q -- . && git clean -fdq")
@@ -35,7 +38,7 @@ res["suite_tail"] = out[-400:]
 os.makedirs(os.path.join(wt, target), exist_ok=True)
 for f in glob.glob(os.path.join(d, "demo", "*.go")):
     shutil.copy(f, os.path.join(wt, target))
-rc, out = sh(cmd)
+rc, out = sh(cmd, timeout=900)
 res["demo_fails_with_change"] = rc != 0 and ("FAIL" in out)
 res["demo_with_tail"] = out[-400:]
 rc2, out2 = sh("git apply -R %s/patch.diff" % d)
